@@ -5,6 +5,8 @@ package main
 // registers such a proxy.
 
 import (
+	"strings"
+
 	"git.torproject.org/pluggable-transports/snowflake.git/v2/common/messages"
 	"git.torproject.org/pluggable-transports/snowflake.git/v2/internal/verifapi"
 )
@@ -57,8 +59,11 @@ func verifRefSuperset(p, q string) bool {
 
 func VerifC06_BrokerRejects() {
 	ctx := verifNewContext()
-	ctx.allowedRelayPattern = verifapi.String("allowed", verifapi.Param("plen", 3))
-	ctx.presumedPatternForLegacyClient = verifapi.String("presumed", verifapi.Param("plen", 3))
+	allowed := verifapi.String("allowed", verifapi.Param("plen", 3))
+	presumed := verifapi.String("presumed", verifapi.Param("plen", 3))
+	// configured the way the broker binary does it (an empty bridge list file is fine here)
+	cerr := ctx.InstallBridgeListProfile(strings.NewReader(""), allowed, presumed)
+	verifapi.Assert(cerr == nil, "the profile is installed")
 	verifPollPattern = verifapi.String("pattern", verifapi.Param("plen", 3))
 	verifPollSupported = verifapi.Bool("patternSupported")
 	if !verifPollSupported {
@@ -70,9 +75,9 @@ func VerifC06_BrokerRejects() {
 	verifapi.Assert(err == nil, "a well-formed poll is answered")
 	effective := verifPollPattern
 	if !verifPollSupported {
-		effective = ctx.presumedPatternForLegacyClient
+		effective = presumed
 	}
-	if !verifRefSuperset(effective, ctx.allowedRelayPattern) {
+	if !verifRefSuperset(effective, allowed) {
 		verifapi.Cover("poll rejected for its relay pattern")
 		verifapi.Assert(verifRegistered == 0, "a proxy whose pattern is not a superset of the allowed pattern is never registered (never given a client)")
 		verifapi.Assert(!verifPollSuccess && verifPollStatus != "no match", "such a poll is explicitly rejected, not answered like an idle poll")
